@@ -24,6 +24,7 @@
 #include "opentelemetry/sdk/trace/exporter.h"
 #include "opentelemetry/sdk/trace/id_generator.h"
 #include "opentelemetry/sdk/trace/processor.h"
+#include "opentelemetry/sdk/trace/random_id_generator.h"
 #include "opentelemetry/sdk/trace/sampler.h"
 #include "opentelemetry/sdk/trace/samplers/always_off.h"
 #include "opentelemetry/sdk/trace/samplers/always_on.h"
@@ -58,12 +59,49 @@ using verif::Tok;
 using Toks = std::vector<Tok>;
 
 // ---------------------------------------------------------------- printing
+// Default-generator cases: the ids of the SDK's RandomIdGenerator cannot be predicted, so every id it hands out is
+// renamed, when printed, to the id written in the StartSpan operation that drew it - first come first served; a zero
+// id is never renamed.  If (and only if) the real ids are non-zero and pairwise distinct, the observation is the one
+// a scripted generator returning the written ids would give; a zero or repeated real id shows up as such.
+struct Renamer
+{
+  std::mutex m;
+  std::map<std::string, std::string> sid, tid;
+  std::string map_id(std::map<std::string, std::string> &tbl, const uint8_t *p, size_t n)
+  {
+    std::lock_guard<std::mutex> g(m);
+    std::string k(reinterpret_cast<const char *>(p), n);
+    auto it = tbl.find(k);
+    return it == tbl.end() ? k : it->second;
+  }
+  void learn(std::map<std::string, std::string> &tbl, const uint8_t *real, const uint8_t *written, size_t n)
+  {
+    std::lock_guard<std::mutex> g(m);
+    std::string k(reinterpret_cast<const char *>(real), n);
+    if (k == std::string(n, '\0')) return;
+    tbl.emplace(k, std::string(reinterpret_cast<const char *>(written), n));   // keeps the first renaming
+  }
+};
+static Renamer *g_ren = nullptr;   // non-null while a default-generator case runs
+
+static void out_tid(const trace_api::TraceId &t, Out &o)
+{
+  uint8_t b[16];
+  t.CopyBytesTo(nostd::span<uint8_t, 16>(b, 16));
+  if (g_ren) o.bytes(g_ren->map_id(g_ren->tid, b, 16)); else o.bytes(b, 16);
+}
+static void out_sid(const trace_api::SpanId &s, Out &o)
+{
+  uint8_t b[8];
+  s.CopyBytesTo(nostd::span<uint8_t, 8>(b, 8));
+  if (g_ren) o.bytes(g_ren->map_id(g_ren->sid, b, 8)); else o.bytes(b, 8);
+}
+
 static void print_ctx(const trace_api::SpanContext &sc, Out &o)
 {
-  uint8_t tb[16], sb[8];
-  sc.trace_id().CopyBytesTo(nostd::span<uint8_t, 16>(tb, 16));
-  sc.span_id().CopyBytesTo(nostd::span<uint8_t, 8>(sb, 8));
-  o.bytes(tb, 16).bytes(sb, 8).num(sc.trace_flags().flags()).boolean(sc.IsRemote());
+  out_tid(sc.trace_id(), o);
+  out_sid(sc.span_id(), o);
+  o.num(sc.trace_flags().flags()).boolean(sc.IsRemote());
   auto ts = sc.trace_state();
   o.bytes(ts ? ts->ToHeader() : std::string());
 }
@@ -89,6 +127,34 @@ public:
   uint8_t next_sid[8]  = {0};
   uint8_t next_tid[16] = {0};
   long long sid_calls = 0, tid_calls = 0;
+};
+
+// the SDK's default generator (RandomIdGenerator over sdk/src/common/random.cc), called on the thread that starts the
+// span; counts the calls and teaches the renamer which written id each real id stands for
+class CountingRandomIdGenerator : public ScriptedIdGenerator
+{
+public:
+  explicit CountingRandomIdGenerator(Renamer *r) : ScriptedIdGenerator(true), ren(r) {}
+  trace_api::SpanId GenerateSpanId() noexcept override
+  {
+    sid_calls++;
+    auto id = inner.GenerateSpanId();
+    uint8_t b[8];
+    id.CopyBytesTo(nostd::span<uint8_t, 8>(b, 8));
+    ren->learn(ren->sid, b, next_sid, 8);
+    return id;
+  }
+  trace_api::TraceId GenerateTraceId() noexcept override
+  {
+    tid_calls++;
+    auto id = inner.GenerateTraceId();
+    uint8_t b[16];
+    id.CopyBytesTo(nostd::span<uint8_t, 16>(b, 16));
+    ren->learn(ren->tid, b, next_tid, 16);
+    return id;
+  }
+  sdktrace::RandomIdGenerator inner;
+  Renamer *ren;
 };
 
 struct Scripted
@@ -141,9 +207,8 @@ public:
     Out o;
     o.tag("P");
     print_ctx(parent, o);
-    uint8_t tb[16];
-    tid.CopyBytesTo(nostd::span<uint8_t, 16>(tb, 16));
-    o.bytes(tb, 16).tag("R").tag(decision_name(r.decision));
+    out_tid(tid, o);
+    o.tag("R").tag(decision_name(r.decision));
     if (r.trace_state) o.bytes(r.trace_state->ToHeader()); else o.tag("NULL");
     o.num(r.attributes ? (long long)r.attributes->size() : -1);
     log = o.line;
@@ -207,11 +272,10 @@ public:
       o.tag("X");
       auto name = d->GetName();
       o.tag(std::string(name.data(), name.size()));
-      uint8_t tb[16], sb[8], pb[8];
-      d->GetTraceId().CopyBytesTo(nostd::span<uint8_t, 16>(tb, 16));
-      d->GetSpanId().CopyBytesTo(nostd::span<uint8_t, 8>(sb, 8));
-      d->GetParentSpanId().CopyBytesTo(nostd::span<uint8_t, 8>(pb, 8));
-      o.bytes(tb, 16).bytes(sb, 8).bytes(pb, 8).num(d->GetFlags().flags()).num(d->GetSpanContext().trace_flags().flags());
+      out_tid(d->GetTraceId(), o);
+      out_sid(d->GetSpanId(), o);
+      out_sid(d->GetParentSpanId(), o);
+      o.num(d->GetFlags().flags()).num(d->GetSpanContext().trace_flags().flags());
       o.boolean(d->GetSpanContext().IsRemote());
       auto ts = d->GetSpanContext().trace_state();
       o.bytes(ts ? ts->ToHeader() : std::string());
@@ -531,9 +595,11 @@ static void run_case(const Toks &t, Out &out)
     return;
   }
   long long en = parts[0][1].as_ll(), rnd = parts[0][2].as_ll(), nth = parts[0][3].as_ll();
+  Renamer renamer;
+  g_ren = nullptr;
   World w;
   auto inner = make_sampler(parts[0], 4, w.scripted);
-  if (en < 0 || en > 1 || rnd < 0 || rnd > 1 || nth < 1 || nth > 4 || !inner)
+  if (en < 0 || en > 1 || rnd < 0 || rnd > 2 || nth < 1 || nth > 4 || !inner)
   {
     out.tag("BADCASE");
     return;
@@ -542,7 +608,12 @@ static void run_case(const Toks &t, Out &out)
   {
     std::vector<std::unique_ptr<sdktrace::SpanProcessor>> procs;
     procs.emplace_back(new sdktrace::SimpleSpanProcessor(std::unique_ptr<sdktrace::SpanExporter>(new RecordingExporter(w.xlog))));
-    w.gen = new ScriptedIdGenerator(rnd != 0);
+    if (rnd == 2)
+    {
+      g_ren = &renamer;
+      w.gen = new CountingRandomIdGenerator(&renamer);
+    }
+    else w.gen = new ScriptedIdGenerator(rnd != 0);
     w.spy = new Spy(inner);
     auto cfgr = std::make_unique<scope_ns::ScopeConfigurator<sdktrace::TracerConfig>>(
         scope_ns::ScopeConfigurator<sdktrace::TracerConfig>::Builder(en ? sdktrace::TracerConfig::Enabled() : sdktrace::TracerConfig::Disabled())
@@ -588,6 +659,7 @@ static void run_case(const Toks &t, Out &out)
   w.pool.clear();
   w.spans.clear();
   w.tracer.reset();
+  g_ren = nullptr;
   if (ok) out.line = o.line;
   else out.tag("BADCASE");
 }
